@@ -66,6 +66,13 @@ fn adt_path<'tcx>(tcx: TyCtxt<'tcx>, ty: Ty<'tcx>) -> Option<(String, Vec<String
         ty::Ref(_, t, _) => *t,
         _ => ty,
     };
+    // const generic arguments written as expressions (`Partial<{ !0u8 >> 2 }>`) are evaluated first
+    use rustc_middle::ty::TypeVisitableExt;
+    let ty = if ty.has_non_region_param() || !format!("{:?}", ty).contains("Unevaluated") {
+        ty
+    } else {
+        tcx.try_normalize_erasing_regions(ty::TypingEnv::fully_monomorphized(), ty::Unnormalized::new(ty)).unwrap_or(ty)
+    };
     if let ty::Adt(def, args) = ty.kind() {
         let mut consts = Vec::new();
         for a in args.iter() {
